@@ -325,6 +325,30 @@ def rule_escape(rep: Report, repo: Repo, clo: List[Tuple[str, str, ast.FunctionD
                          expected='a handler converting it to a specific FlipJumpException, or a dominating guard')
 
 
+def rule_list_stores(rep: Report, repo: Repo) -> None:
+    """word-list stores of the wflip chain builder: IndexError unless the spot bookkeeping invariants hold."""
+    from . import c02
+    scratch = Report('C02', 'quick')
+    c02.rule_pad_state(scratch, repo)
+    c02.rule_paired(scratch, repo)
+    broken = [i for i in scratch.instances if not i.ok]
+    fn = repo.func(ASM, 'BinaryData.insert_wflip_ops')
+    n = 0
+    for st in walk_no_nested(fn):
+        if isinstance(st, ast.Subscript) and isinstance(st.ctx, ast.Store) and norm(st.value) in ('ops_list', 'wflip_spot.list'):
+            n += 1
+            key = f'BinaryData.insert_wflip_ops:{norm(st)} = ...'
+            if not broken:
+                rep.ok('C14.ESCAPE', key, 'INVARIANT: hole indices are valid indices of fj_words (C02.PAD-STATE) and a new spot is '
+                       '(list, len(list)) taken before the list grows by two (C02.PAIRED-UPDATE)', f'{ASM}:{st.lineno} BinaryData.insert_wflip_ops')
+            else:
+                rep.fail('C14.ESCAPE', key, f'list store through a chain spot can raise IndexError (-> generic failure) because '
+                         f'{broken[0].rule} @ {broken[0].construct} does not hold: {broken[0].fact[:160]}',
+                         f'{ASM}:{st.lineno} BinaryData.insert_wflip_ops', expected='spot indices always valid for their list')
+    if n < 3:
+        raise AnalysisError('insert_wflip_ops: list stores not found')
+
+
 def _sites_of(repo: Repo, rel: str, q: str, fn: ast.FunctionDef) -> List[Site]:
     class _R:
         def func(self, _rel: str, _q: str) -> ast.FunctionDef:
@@ -474,6 +498,7 @@ def check(rep: Report, repo: Optional[Repo] = None) -> None:
         raise AnalysisError(f'assemble() closure shrank to {len(clo)} functions')
     rule_funnel(rep, repo)
     rule_escape(rep, repo, clo)
+    rule_list_stores(rep, repo)
     rule_recursion(rep, repo, clo)
     rule_raises(rep, repo, clo)
     rule_write_last(rep, repo)
